@@ -264,7 +264,7 @@ func Input(l *InputSharedVars, g *GlobalVarsMain, hPath *HFilePath, driConfig *C
 								g.WNOR[LTindex] = g.W[LTindex]
 
 								if L == 1 {
-									calcWRed(g.WMIN[LTindex], g.W[LTindex], g)
+									calcWRed(g.WMIN[LTindex]*100, g.W[LTindex]*100, g) // the helper takes percent
 								}
 							}
 						}
